@@ -97,6 +97,12 @@ chk("C10",
     "stateless explicit enumeration of all bounded inputs x 36 renderer configurations; reference-model (direct tree reading) comparison on every execution",
     "DESIGN.md section 6, C10")
 
+chk("C17",
+    "Every bounded raw-HTML input (two alphabets with comments, CDATA, declarations, processing instructions, stray <, quotes, upper case) in three contexts, and every bounded inline input, is rendered by the real renderer without and with each of 5 predicates; the filtered output must be the unfiltered output with some '<' replaced by '&lt;' (two-pointer check), identical under a predicate that rejects nothing, and a WHATWG data-state tokenizer over it must emit no start tag whose name the predicate rejects.",
+    "Bounded scope (alphabets, lengths in the evidence). The tokenizer reference is self-tested before every run against x/net/html's tokenizer on 137k strings and on hand-written cases; no tree construction (data-state family only), as the property states.",
+    "stateless explicit enumeration of all bounded inputs x 3 contexts x 5 predicates x 2 soft-break modes; reference HTML tokenizer as oracle over the real renderer's output",
+    "DESIGN.md section 6, C17")
+
 # Reasons for properties not (yet) claimed.
 PENDING = {}
 
